@@ -141,7 +141,7 @@ Proof. rewrite b_txt_app. unfold b_txtK. apply s_head_not_paren. Qed.
 Lemma b_head a k : ws_free (app (b_txt a) k).
 Proof. rewrite b_txt_app. unfold b_txtK. apply s_head_free. Qed.
 Lemma b_not_not a k : fspecj not_alt1 (app (b_txt a) k).
-Proof. rewrite b_txt_app. unfold b_txtK. apply s_head_not_not. Qed.
+Proof. rewrite b_txt_app. unfold b_txtK. apply s_head_not_not. apply m_optext_sstop. Qed.
 
 (* ---- the complete atom universe: AtomsSel.atomF and values written as selectors ---- *)
 Definition atomA := (atomF + batom)%type.
@@ -175,7 +175,7 @@ Proof. eexists. vm_compute. reflexivity. Qed.
 (* non-vacuity: every bexpr spelling of a selector (Sels.of_mixed: name, then parts as .name / .digits / ["lit"] / [`lit`]) is such
    a value, for every layout of the operator, every subject and both polarities *)
 Theorem bare_left_values_exist c cs segs (Hh : class_match cls_id_head (crune c) = true) (Ht : id_tail_ok cs) (Hs : Forall seg_ok segs)
-  (Hn : crune c <> 110%Z) (l : oplay) (sr : selr) (neg : bool) :
+  (Hn : map crune (c :: cs) <> [110; 111; 116]%Z \/ segs <> []) (l : oplay) (sr : selr) (neg : bool) :
   exists a : batom,
     b_txt a = app (c :: app cs (segs_cells segs [])) (m_optext neg l (app (s_txt sr) [])) /\
     b_exp a = EMatch (s_val sr) (if neg then OpNotIn else OpIn)
